@@ -555,6 +555,14 @@ def selections(chk, F, ty):
                     which = i
             want_rank = ref[meth](ranks)
             ok = which is not None and ranks[which] == want_rank
+            if ok and meth == "clamp":
+                # the float reference is exact about WHICH value comes back: `self` unless it is strictly outside the bounds -- on a tie with
+                # a bound the operand itself is returned (its sign of zero, its NaN, its derivative parts), not the bound
+                idx = 1 if ranks[0] < ranks[1] else (2 if ranks[0] > ranks[2] else 0)
+                if which != idx:
+                    chk.ob(k2 + "|tie", False, "clamp returns self unless self is strictly below min / above max (f64::clamp)", body_loc(F, body),
+                           found="operand %s" % names[which], required="operand %s" % names[idx])
+                    continue
             chk.ob(k2, ok, "%s returns one operand wholesale, the one the reference selection picks" % meth, body_loc(F, body),
                    found="operand %s" % (names[which] if which is not None else repr(val)[:120]),
                    required="an operand of rank %d" % want_rank)
